@@ -1,3 +1,4 @@
+import Sparrow.Proofs.KangPipelineLemmas
 import Sparrow.Proofs.KangLemmas
 import Sparrow.Generated.Constants
 import Sparrow.Proofs.RealInst
@@ -90,3 +91,63 @@ theorem kang_direct (r m : ℝ) : directSound r m = Real.exp (-m * r) / (4 * Rea
 theorem kang_delay_site : Generated.kangDelayRolls = true ∧ Generated.kangDelayZeroesHead = true := by decide
 
 end Sparrow.Props.C19
+
+namespace Sparrow.Props.C19.Run
+open Sparrow Vec3 Finset
+
+/-- **Translating the whole scene — walls, source and receiver — changes nothing**: same patches
+    (translated), same form factors, first-order energies and bins, order histograms, receiver
+    response and direct sound; and the run is refused for the translated scene iff it is for the
+    original.  For every room, patch size, absorptions, attenuations, parameters and vector. -/
+theorem runKang_translation (thr5 thr12 thr99 thr11 : ℝ) (room : KRoom ℝ) (par : KPar ℝ)
+    (src recv t : Vec3 ℝ) :
+    runKang thr5 thr12 thr99 thr11 (room.translate t) par (add src t) (add recv t) =
+      runKang thr5 thr12 thr99 thr11 room par src recv :=
+  Sparrow.runKang_translation thr5 thr12 thr99 thr11 room par src recv t
+
+/-- **Order recursion of the run** (rooms with at least two walls): order `k+1` on patch `j` is the
+    sum over the patches `i` of all other walls of their order-`k` histogram delayed by the
+    centre-to-centre bins (what falls off the end is dropped), scaled by the form factor, by
+    scattering·(1-absorption) of the RECEIVING wall and by `exp(-m d)` with the receiving wall's `m`. -/
+theorem runKang_order_recursion (thr5 thr12 thr99 thr11 : ℝ) (room : KRoom ℝ) (par : KPar ℝ)
+    (src recv : Vec3 ℝ) (b : KBaked ℝ) (r : KRun ℝ)
+    (hb : kangBake room = some b)
+    (hr : runKang thr5 thr12 thr99 thr11 room par src recv = some r)
+    (hW : 1 < room.W) (k j t : Nat) (hk : k < par.K) (hj : j < b.P) (ht : t < par.S) :
+    r.order (k + 1) j t =
+      ∑ i ∈ range b.P,
+        if b.wall i ≠ b.wall j ∧
+            binKang (Vec3.norm (Vec3.sub (b.cen j) (b.cen i))) par.c par.fs ≤ t then
+          lookup2 r.ff i j * (room.scattering (b.wall j) * (1 - room.absorption (b.wall j))) *
+            Real.exp (-(room.att (b.wall j)) * Vec3.norm (Vec3.sub (b.cen j) (b.cen i))) *
+            r.order k i (t - binKang (Vec3.norm (Vec3.sub (b.cen j) (b.cen i))) par.c par.fs)
+        else 0 :=
+  Sparrow.runKang_order_recursion thr5 thr12 thr99 thr11 room par src recv b r hb hr hW k j t hk hj ht
+
+/-- **Direct-sound law of the run**: with the direct sound, bin `int(r/c·fs)` of the response is
+    increased by exactly `exp(-m r)/(4π r²)` (`m` of the first wall), every other bin is unchanged. -/
+theorem runKang_direct (thr5 thr12 thr99 thr11 : ℝ) (room : KRoom ℝ) (par : KPar ℝ)
+    (src recv : Vec3 ℝ) (r : KRun ℝ) (f : Array ℝ)
+    (hr : runKang thr5 thr12 thr99 thr11 room par src recv = some r) (hf : r.full = some f)
+    (t : Nat) (ht : t < par.S) :
+    f.getD t 0 = r.response.getD t 0 +
+      (if t = binKang (Vec3.norm (Vec3.sub recv src)) par.c par.fs then
+        Real.exp (-(room.att 0) * Vec3.norm (Vec3.sub recv src)) /
+          (4 * Real.pi * Vec3.norm (Vec3.sub recv src) ^ 2)
+       else 0) :=
+  Sparrow.runKang_direct thr5 thr12 thr99 thr11 room par src recv r f hr hf t ht
+
+/-- **Monotone in the maximum order**: with non-negative first-order energies and form factors,
+    scattering ≥ 0 and absorption ≤ 1, raising the maximum order from `K` to `K+1` does not decrease
+    any bin of the receiver response. -/
+theorem runKang_monotone (thr5 thr12 thr99 thr11 : ℝ) (room : KRoom ℝ) (par : KPar ℝ)
+    (src recv : Vec3 ℝ) (r r' : KRun ℝ)
+    (hr : runKang thr5 thr12 thr99 thr11 room par src recv = some r)
+    (hr' : runKang thr5 thr12 thr99 thr11 room { par with K := par.K + 1 } src recv = some r')
+    (he : ∀ j, 0 ≤ r.e0.getD j 0) (hff : ∀ i j, 0 ≤ lookup2 r.ff i j)
+    (hs : ∀ w, 0 ≤ room.scattering w) (ha : ∀ w, room.absorption w ≤ 1)
+    (t : Nat) :
+    r.response.getD t 0 ≤ r'.response.getD t 0 :=
+  Sparrow.runKang_monotone thr5 thr12 thr99 thr11 room par src recv r r' hr hr' he hff hs ha t
+
+end Sparrow.Props.C19.Run
